@@ -320,7 +320,15 @@ pub fn run_case(ctx: &mut Ctx, c: &Case) {
         let scen = || json!({"case": {"prog": p, "faults": [f]}, "k": k.name(), "facts": xlate::facts(p, &k)});
         let ub = upper_bound(&pr, &k, &enc_plain, d.comp.as_ref(), ci);
         let cap = 4 * (pr.raw.len() + pr.expected.values().map(Vec::len).sum::<usize>()) + (1 << 20);
-        let run = |mode: Mode, rng: &mut Rng| guarded(|| drv::repair_and_read_capped(drv::ThrottledSrc::new(&alt, Sched::All), &pr.sks, mode, rng, cap));
+        // the archive source may return short reads (the same schedule for both modes)
+        let src_sched = match model::prng::fnv(format!("{f:?}").as_bytes()) % 4 {
+            0 => Sched::Max(65536),
+            1 => Sched::Rand(70_000, p.seed),
+            2 => Sched::Max(4095),
+            // whole reads, except one cut inside each of the chunks 1, 2 and 3 (chunk 0 is loaded whole)
+            _ => Sched::StopAt((1..=3u64).map(|j| pr.header_len as u64 + j * k.chunk_tag() + 1000 * j).collect()),
+        };
+        let run = |mode: Mode, rng: &mut Rng| guarded(|| drv::repair_and_read_capped(drv::ThrottledSrc::new(&alt, src_sched.clone()), &pr.sks, mode, rng, cap));
         let auth = run(Mode::Auth, &mut rng);
         let unauth = run(Mode::Unauth, &mut rng);
         let sigsuffix = format!("{kclass}:{kind}:layers{}", p.layers);
